@@ -6,7 +6,7 @@ import struct
 from vlib import core, e2e
 from vlib.coord_common import first_diff
 
-MODS = ['S4V.Props.SortSpec', 'S4V.Props.FilterSpec', 'S4V.Props.FixedSpec', 'S4V.Props.FixedRenderSpec', 'S4V.Props.LayoutDetectSpec', 'S4V.Props.FixedWalkSpec']
+MODS = ['S4V.Props.SortSpec', 'S4V.Props.FilterSpec', 'S4V.Props.FixedSpec', 'S4V.Props.FixedRenderSpec', 'S4V.Props.LayoutDetectSpec', 'S4V.Props.FixedWalkSpec', 'S4V.Props.FixedWalkManySpec']
 LEVEL_NOTE = ("Proved over the model of `insert into BTreeMap, walk in key order` with the key shape, the window comparisons and the null-record test "
               "regenerated from fixedstructreader.rs on every run: every non-null in-window record exactly once, ordered by time value, equal times in file order "
               "(C08_order = stable sort), both window bounds inclusive. WHICH value is the record's time is proved too (FixedSpec), over a table regenerated from "
